@@ -420,8 +420,10 @@ impl<'s> Tokenizer<'s> {
     fn syntax_error(&mut self, msg: &'static str) -> Error {
         let mut span = self.span(self.loc());
         if span.start_col == span.end_col {
-            span.end_col += 1;
-            span.end_offset += 1;
+            // widen an empty span over the offending character without
+            // leaving the source or splitting the character.
+            span.end_col = span.end_col.saturating_add(1);
+            span.end_offset += self.rest().chars().next().map_or(0, |c| c.len_utf8() as u32);
         }
         let mut err = Error::new(ErrorKind::SyntaxError, msg);
         err.set_filename_and_span(self.filename, span);
